@@ -17,6 +17,7 @@ import re
 import os.path
 import unicodedata
 from collections.abc import Iterator
+from copy import copy
 from decimal import Decimal, DecimalException
 from string import ascii_letters
 from typing import cast, Optional, Union, NoReturn
@@ -621,7 +622,7 @@ def select__insert_before(self: XPathFunction, context: ta.ContextType = None) \
     insert_at_pos = max(0, position - 1)
 
     inserted = False
-    for pos, result in enumerate(self[0].select(context)):
+    for pos, result in enumerate(self[0].select(copy(context))):
         if not inserted and pos == insert_at_pos:
             yield from self[2].select(context)
             inserted = True
